@@ -204,7 +204,6 @@ def run_case(spec, ctx):
 def finish(out, text, spec, sing, ode=None, target=None):
     if out["violations"]:
         out["status"] = "violated"
-        out["violations"] = out["violations"][:6]
     for v in out["violations"]:
         F.classify(ID, v, text=text, n_sing=len(sing), ode=ode, target=target)
     out["model_text"] = text if out["violations"] else None
